@@ -34,6 +34,9 @@ class C01Facade(Harness):
                 for wk in ("none", "real") if tier == "quick" else ("none", "int", "real"):
                     for width in ((1.0,) if tier == "quick" else (1.0, 0.5)):
                         yield (f"h1-N{n}-M{m}-{spec}-w{wk}-bw{width}", dict(N=n, M=m, spec=spec, weights=wk, keep_missed=True, dtype=None, nan=(n <= 2), width=width))
+        # a genuine gap that is small relative to the edges (2.5e-6..5e-6 |edge|): inside is_consecutive's relative tolerance
+        for n in (1, 2):
+            yield (f"h1-N{n}-M2-pairs-smallgap", dict(N=n, M=2, spec="pairs", weights="real", keep_missed=True, dtype=None, nan=False, small=True))
         for (n, m), spec, wk, keep, dt in combos:
             yield (f"h1-N{n}-M{m}-{spec}-w{wk}-k{int(keep)}-d{dt}",
                    dict(N=n, M=m, spec=spec, weights=wk, keep_missed=keep, dtype=dt, nan=(n <= 2)))
@@ -68,8 +71,13 @@ class C01Facade(Harness):
             if not cx.sym:
                 return x
             L, R = [cx.t(i) for i in x["l"]], [cx.t(i) for i in x["r"]]
-            cx.assume(rising_pairs(L, R), tolerance_band(L, R))
+            if p.get("small"):
+                ar = z3.If(R[0] >= 0, R[0], -R[0])
+                cx.assume(rising_pairs(L, R), ar >= 1, L[1] - R[0] >= ar / 400000, L[1] - R[0] <= ar / 200000)
+            else:
+                cx.assume(rising_pairs(L, R), tolerance_band(L, R))
             cx.define("gapped", z3.Not(consecutive(L, R)))
+            cx.define("small_gap", z3.BoolVal(bool(p.get("small"))))
         return x
 
     def _declare_layout(self, cx, p):
@@ -77,6 +85,12 @@ class C01Facade(Harness):
         if cx.sym:
             cx.assume(x["e"][0] < x["e"][1])
         return x
+
+    def witness_hints(self, cx, p, x):
+        if not p.get("small"):
+            return []
+        ints = [z3.ToReal(z3.ToInt(cx.t(v) * 4)) == cx.t(v) * 4 for v in list(x["l"]) + list(x["r"]) + list(x["v"]) + list(x["w"])]
+        return [[cx.t(x["r"][0]) == 2 ** 20, cx.t(x["l"][1]) == 2 ** 20 + 4] + ints]
 
     def drive(self, E, p, x):
         np = E.np
